@@ -155,7 +155,7 @@ class Wrapc(util.WrapperMixin):
         self._push_splicer("class")
         structs = []
         for cls in node.classes:
-            if not node.wrap.c:
+            if not cls.wrap.c:
                 continue
             if cls.wrap_as == "struct":
                 structs.append(cls)
